@@ -13,8 +13,8 @@ import math
 import numpy as np
 from hypothesis import strategies as st
 
-from vf import cases, gen, oracles
-from vf.runner import SubCheck, Violation, require, target
+from vf import cases, gen, oracles, sim
+from vf.runner import Skip, SubCheck, Violation, require, target
 
 RULE = ("tableau/algebra: every explicit integrator class exported by flowdyn.integration (discovered at run time) x t0, dt over 6 decades x field size; programs: right-hand sides drawn from a "
         "grammar (A y; A y + B sin y; componentwise polynomials; g(t) A y; max/min filters) of dimension 1..8 with generated coefficients, 1 or 2 equations, scalar or per-component dt; "
@@ -33,10 +33,10 @@ EPS = np.finfo(float).eps
 
 
 class FakeModel(object):
-    def __init__(self, neq):
+    def __init__(self, neq, islinear=0):
         self.neq = neq
         self.shape = [1] * neq
-        self.islinear = 0
+        self.islinear = islinear        # flowdyn's flag "the physical model is linear" (convection): says nothing about the discretised right-hand side
 
 
 class FakeMesh(object):
@@ -56,11 +56,11 @@ class FakeDisc(object):
         return self.fun(len(self.calls) - 1, field.time, field.data)
 
 
-def make_field(data, t0):
+def make_field(data, t0, islinear=0):
     import flowdyn.field as ffield
     neq = len(data)
     n = len(data[0])
-    return ffield.fdata(FakeModel(neq), FakeMesh(n), [np.array(d, dtype=float) for d in data], t=t0)
+    return ffield.fdata(FakeModel(neq, islinear), FakeMesh(n), [np.array(d, dtype=float) for d in data], t=t0)
 
 
 def make_solver(name, disc, n):
@@ -68,7 +68,7 @@ def make_solver(name, disc, n):
     return getattr(integ, name)(FakeMesh(n), disc)
 
 
-def extract_tableau(name, t0=0.0, dt=1.0, m=8):
+def extract_tableau(name, t0=0.0, dt=1.0, m=8, islinear=0):
     """(A, b, c_from_times, nstage)"""
     y0 = np.zeros(m)
 
@@ -80,7 +80,7 @@ def extract_tableau(name, t0=0.0, dt=1.0, m=8):
         return [e]
     disc = FakeDisc(fun)
     solver = make_solver(name, disc, m)
-    f = make_field([y0], t0)
+    f = make_field([y0], t0, islinear)
     solver.step(f, dt)
     s = len(disc.calls)
     A = np.zeros((s, s))
@@ -112,6 +112,10 @@ def check_tableau(case):
     A1, b1, c1, s1, _ = extract_tableau(name, 0.0, 1.0)
     require(s1 == s and np.allclose(A, A1, rtol=0, atol=1e-12) and np.allclose(b, b1, rtol=0, atol=1e-12), "tableau-depends-on-dt", "%s: extracted coefficients depend on t0/dt" % name)
     A, b = A1, b1
+    # ... nor on the model's "linear" flag: the flag describes the physical model, the right-hand side handed to the integrator need not be linear
+    A2, b2, c2, s2, _ = extract_tableau(name, 0.0, 1.0, islinear=1)
+    require(s2 == s and np.allclose(A, A2, rtol=0, atol=1e-14) and np.allclose(b, b2, rtol=0, atol=1e-14) and np.allclose(c1, c2, rtol=0, atol=1e-14), "tableau-depends-on-model-flag",
+            "%s: the Runge-Kutta coefficients / stage times differ when the model is flagged linear (weights %r vs %r)" % (name, b2.tolist(), b.tolist()))
     require(np.allclose(np.triu(A), 0.0, atol=1e-15), "not-explicit", "%s: a stage depends on a later stage" % name)
     # time bookkeeping: stage abscissae c_i = sum_j a_ij, times presented to the stages t0 + c_i dt, end time t0 + dt
     cA = A.sum(axis=1)
@@ -163,7 +167,7 @@ def strat_programs(tier):
                          # how the operator hands its result over: new arrays at every call, or work arrays allocated once (the same list of the same array objects,
                          # overwritten at every evaluation - a common optimisation of user-written operators)
                          st.sampled_from(["fresh", "fresh", "workarray"]))
-    return st.integers(1, 8).flatmap(build)
+    return st.builds(lambda c, lin: dict(c, islinear=lin), st.integers(1, 8).flatmap(build), st.sampled_from([0, 0, 1]))
 
 
 def rhs_function(case):
@@ -238,12 +242,12 @@ def check_programs(case):
     if neq == 2:
         if d % 2:
             neq, split = 1, d
-            field = make_field([y0], t0)
+            field = make_field([y0], t0, case.get("islinear", 0))
         else:
-            field = make_field([y0[:split], y0[split:]], t0)
+            field = make_field([y0[:split], y0[split:]], t0, case.get("islinear", 0))
         n = split
     else:
-        field = make_field([y0], t0)
+        field = make_field([y0], t0, case.get("islinear", 0))
         n = d
     dtarg = dt if np.ndim(dt) == 0 else (dt[:split] if neq == 2 else dt)
     if neq == 2 and np.ndim(dt) == 1:
@@ -279,7 +283,70 @@ def check_programs(case):
     target(err, "program-error")
     nontrivial = case["kind"] != "linear" and any(float(np.max(np.abs(k))) > 0 for k in ks)
     return dict(nontrivial=nontrivial, labels=["integ:" + name, "kind:" + case["kind"], "neq:%d" % neq, "dt:" + ("scalar" if np.ndim(dt) == 0 else "vector"),
-                                                   "rhs-returns:" + (case.get("alloc", "fresh") if case["kind"] != "secondorder-view" else "view-of-field")])
+                                                   "rhs-returns:" + (case.get("alloc", "fresh") if case["kind"] != "secondorder-view" else "view-of-field"), "model-flag-linear:%d" % case.get("islinear", 0)])
+
+
+# ---------------------------------------------------------------- real space operators
+def strat_real(tier):
+    nmax = 8 if tier == "quick" else 16
+
+    def cfg(md):
+        fmd = md
+        return st.builds(lambda me, num, s_, fl, integ, cfl, t0: dict(model=md, mesh=me, num=num, state=s_, flux=fl, integ=integ, cfl=cfl, t0=t0),
+                         gen.mesh_any(3, nmax), gen.num_any(), gen.state_for(md, False, lnrange=0.5, machmax=1.2, smooth_amp=0.2) if md["name"] not in ("convection", "burgers") else gen.state_scalar(True, 0.2, 2.0),
+                         st.sampled_from(cases.flux_names(fmd)), st.sampled_from(explicit_names()), gen.f(0.05, 0.6), st.one_of(st.just(0.0), gen.sfloat(-2, 2)))
+    return st.one_of(gen.model_convection(), gen.model_convection(), gen.model_burgers(), gen.model_shallowwater(), gen.model_euler1d()).flatmap(cfg)
+
+
+def check_real(case):
+    """one step on a REAL flowdyn discretisation (periodic; linear and non-linear reconstructions, every model) equals the generic Runge-Kutta step with the
+    integrator's own tableau, the right-hand side being evaluated by a second, independent discretisation object of the same configuration"""
+    name = case["integ"]
+    md = case["model"]
+    c = dict(case, bcL={"type": "per"}, bcR={"type": "per"})
+    P = sim.problem1d(c)
+    Pref = sim.problem1d(c)
+    shapes = [len(np.asarray(d)) for d in P.field.data]
+    y0 = np.concatenate([np.asarray(d, dtype=float) for d in P.field.data])
+    t0 = case["t0"]
+
+    def f(t, y):
+        parts, o = [], 0
+        for m_ in shapes:
+            parts.append(y[o:o + m_].copy())
+            o += m_
+        r = Pref.disc.rhs(cases.build_field(Pref.model, Pref.mesh, parts, t=t))
+        return np.concatenate([np.asarray(x, dtype=float) for x in r])
+    field = cases.build_field(P.model, P.mesh, [np.array(d, dtype=float) for d in P.field.data], t=t0)
+    dt = float(np.min(P.disc.calc_timestep(field, case["cfl"])))
+    if not np.isfinite(dt):
+        raise Skip("infinite time step")
+    times = []
+    orig = P.disc.rhs
+
+    def rec(fld):
+        times.append(fld.time)
+        return orig(fld)
+    P.disc.rhs = rec
+    solver = cases.build_integrator(name, P.mesh, P.disc)
+    solver.step(field, dt)
+    got = np.concatenate([np.asarray(d, dtype=float) for d in field.data])
+    A, b, _c, s, _ = extract_tableau(name)
+    cA = A.sum(axis=1)
+    ref = oracles.rk_step(A, b, cA, f, t0, y0, dt)
+    if not (np.all(np.isfinite(ref)) and np.all(np.isfinite(got))):
+        raise Skip("extrapolated face states outside the admissible set")
+    qsc, _a = sim.state_scales(P.smd, P.prim)
+    sc = np.concatenate([np.full(m_, q) for m_, q in zip(shapes, qsc)])
+    err = float(np.max(np.abs(got - ref) / sc))
+    lim = case["num"].get("limiter", case["num"]["name"])
+    require(err <= 1e-12, "real-step-is-rk-step", "%s.step on %s/%s/%s differs from the Runge-Kutta step with its own tableau by %.3g (relative to the state scale; cfl=%g, n=%d)"
+            % (name, md["name"], case["flux"], lim, err, case["cfl"], P.n))
+    require(len(times) == s, "real-stage-count", "%s evaluates the operator %d times, its tableau has %d stages" % (name, len(times), s))
+    for i, ti in enumerate(times):
+        require(abs(ti - (t0 + cA[i] * dt)) <= 8 * EPS * (abs(t0) + dt) + 1e-13 * dt, "real-stage-time", "%s on %s: stage %d evaluated at time %r, abscissa gives %r" % (name, md["name"], i, ti, t0 + cA[i] * dt))
+    target(err, "real-operator-error")
+    return dict(nontrivial=bool(np.max(np.abs(got - y0)) > 0), labels=["integ:" + name, "model:" + md["name"], "num:" + lim, "linear-model" if md["name"] == "convection" else "nonlinear-model"])
 
 
 # ---------------------------------------------------------------- SSP behaviour
@@ -327,6 +394,7 @@ def check_ssp(case):
 SUBCHECKS = [
     SubCheck("tableau_algebra", check_tableau, strategy=strat_tableau, examples={"quick": 300, "thorough": 1500}, shards={"quick": 2, "thorough": 8}),
     SubCheck("programs", check_programs, strategy=strat_programs, examples={"quick": 500, "thorough": 3000}, shards={"quick": 4, "thorough": 16}),
+    SubCheck("real_operators", check_real, strategy=strat_real, examples={"quick": 150, "thorough": 1000}, shards={"quick": 4, "thorough": 16}),
     SubCheck("ssp_behaviour", check_ssp, strategy=strat_ssp, examples={"quick": 400, "thorough": 3000}, shards={"quick": 2, "thorough": 8}),
 ]
 
